@@ -1,13 +1,23 @@
 //go:build verif
 
-// placeholder: harness c14 is being written
 package main
 
-import "github.com/tink-crypto/tink-go/v2/internal/verifharness/hlib"
+import (
+	"fmt"
+	"time"
+
+	"github.com/tink-crypto/tink-go/v2/internal/verifharness/hlib"
+	"github.com/tink-crypto/tink-go/v2/internal/verifharness/kslib"
+)
 
 func main() {
 	o := hlib.Open("c14")
 	defer o.Close()
+	t0 := time.Now()
+	p := kslib.BuildPool()
+	fmt.Println(len(p.Keys), p.Skipped, time.Since(t0))
+	for _, k := range p.Keys {
+		fmt.Println(k.Name, k.Class, k.Type, k.Prefix, k.KD.KeyMaterialType, len(k.KD.Value))
+	}
 	o.Emit("K validate 7 -", "err", true)
-	o.Emit("K validate 8 -", "err", true)
 }
